@@ -40,6 +40,12 @@ Theorem c16_both_loops_stop : forall m c0 t i s, reachable m c0 t -> nth_error (
   sendl s = false /\ recvl s = false /\ onexit s = 1%nat /\ copen s = false.
 Proof. exact both_loops_stop. Qed.
 
+(* whatever way the read handler ends the receive loop (error, panic with any value - nil included -, Goexit) the
+   session must be over at quiescence *)
+Theorem c16_handler_end_kinds : forall m c0 t i s k t' s', reachable m c0 t -> nth_error (ss t) i = Some s -> started s = true ->
+  step t (On i (RecvFault k)) = Some t' -> nth_error (ss t') i = Some s' -> must_end s' = true.
+Proof. exact handler_end_kinds. Qed.
+
 (* a send loop that still runs at quiescence is parked on an open, empty queue, or blocked in a write nobody reads with
    no write fault armed and the connection up (so a write error or an expired write deadline always ends it) *)
 Theorem c16_send_loop_at_rest : forall m c0 t i s, reachable m c0 t -> nth_error (ss t) i = Some s -> started s = true ->
@@ -148,6 +154,7 @@ Print Assumptions c16_exit_at_most_once.
 Print Assumptions c16_single_exit.
 Print Assumptions c16_closed_iff_exited.
 Print Assumptions c16_both_loops_stop.
+Print Assumptions c16_handler_end_kinds.
 Print Assumptions c16_send_loop_at_rest.
 Print Assumptions c16_internal_run_bounded.
 Print Assumptions c16_count_balanced.
